@@ -32,6 +32,17 @@ def present(jobs, spec=None):
     first_job_events: explicit event order for the first presented job"""
     spec = spec or {}
     n = len(jobs)
+    if spec.get("bulk"):
+        # bulk: [N, rare, pos] - a stream of N jobs in which job `rare`
+        # occurs exactly once, at position pos; the other positions cycle
+        # through the remaining jobs (each copy with fresh ids)
+        total, rare, pos = spec["bulk"]
+        others = [i for i in range(n) if i != rare] or [rare]
+        out = []
+        for k in range(total):
+            ji = rare if k == pos else others[k % len(others)]
+            out.append(to_pv(jobs[ji], f"b{k}", t0=k % 3600))
+        return out
     jo = spec.get("jobs", "canonical")
     if jo == "canonical":
         order = list(range(n))
